@@ -239,7 +239,12 @@ let judge _name ins outs =
     let rt = match one "rt" o with Some "ok" -> Some (hreq_of env o "r") | _ -> None in
     if not (c16_req_ok x cap m ob rt) then begin
       match ob with
-      | Err -> VDisagree "oracle-false-on-Err"
+      | Err ->
+          (* C16_request_dropped_verdict: not logged although capture is off, or there is no body, or the body parses *)
+          let (mt, _) = media x (hget k_ct hdrs) in
+          VPropfail ("request_dropped",
+                     Printf.sprintf "capture=%b has_body_framing=%b media_type=%s body_parses=%b body=%s"
+                       cap (has_framing m) (str mt) (not (body_unparseable_b x m)) (short body))
       | Ok e ->
         (match int_of_nat (req_clause x cap m e rt) with
          | 1 ->
